@@ -25,6 +25,12 @@ StripZeros(bs) == LET nz == {i \in 1..Len(bs) : bs[i] # 0} IN
 NatBits(ls) == StripZeros(AllBits(ls))          \* binary digits without leading zeros (<<>> for zero)
 \* number_to_bit: pad on the left to width w, or keep the first w bits when the number is too long
 ToBitsW(ls, w) == LET b == NatBits(ls) IN IF Len(b) <= w THEN [i \in 1..(w - Len(b)) |-> 0] \o b ELSE SubSeq(b, 1, w)
+\* comparison of two limb numbers
+StripLimbs(ls) == LET nz == {i \in 1..Len(ls) : ls[i] # 0} IN
+                  IF nz = {} THEN <<0>> ELSE SubSeq(ls, CHOOSE i \in nz : \A j \in nz : i <= j, Len(ls))
+RECURSIVE LexLeq(_, _)
+LexLeq(a, b) == a = <<>> \/ Head(a) < Head(b) \/ (Head(a) = Head(b) /\ LexLeq(Tail(a), Tail(b)))
+Leq(x, y) == LET a == StripLimbs(x) b == StripLimbs(y) IN Len(a) < Len(b) \/ (Len(a) = Len(b) /\ LexLeq(a, b))
 \* small values (used by the model-checking scopes to state properties against Nat)
 ValueSmall(ls) == FoldLeft(LAMBDA acc, x : acc * LB + x, 0, ls)
 =============================================================================
